@@ -56,8 +56,25 @@ fn main() {
     std::process::exit(code);
 }
 
+/// The first use of the library by this process, served by the system allocator: a short tour of every family
+/// (weight maps, BDD / SDD / hash-identified builders, CNF, hasher, solver, top-down compilation) so that whatever
+/// the library initialises lazily *for the whole process* (a `static` table, a `OnceLock`) lives in memory that no
+/// run's arena will ever wipe. Result and panics are ignored (a panic here is the library's and will be met again,
+/// attributed properly, inside the runs).
+fn first_use_outside_any_arena() {
+    let quiet = std::panic::take_hook();
+    std::panic::set_hook(Box::new(|_| {}));
+    for s in 1..=3u64 {
+        let _ = std::panic::catch_unwind(|| fresh::on_fresh_thread(|| worlds::prelude::run(s, true)));
+    }
+    std::panic::set_hook(quiet);
+}
+
 fn dispatch(args: &[String]) -> i32 {
     let args: Vec<String> = args.to_vec();
+    if matches!(args.first().map(|s| s.as_str()), Some("child-check" | "replay" | "run-one" | "hashes")) {
+        first_use_outside_any_arena();
+    }
     match args.first().map(|s| s.as_str()) {
         Some("check") => cmd_check(&args[1..]),
         Some("child-check") => cmd_child_check(&args[1..]),
